@@ -33,7 +33,7 @@ theorem quote_roundtrip (s : List Char) : readBack (quote s) = some [s] := by
       · rw [lex_word_dquote, lex_dq_body s [] [] [], lex_word_nil]
         simp
       · simp [fieldOf, tildeTriggered, tildeAt, tildeAfterColon, globTriggered, bracketTriggered,
-          removeQuotes, WUnit.chars]
+          hasLitClose, removeQuotes, WUnit.chars]
     · -- single quotes
       have hq' : s.contains singleQuoteBlocker = false := by simpa using hq
       simp only [hq', Bool.not_false, if_true]
@@ -44,7 +44,7 @@ theorem quote_roundtrip (s : List Char) : readBack (quote s) = some [s] := by
       · rw [lex_word_quote, lex_sq_body s hb [] [] [], lex_word_nil]
         simp
       · simp [fieldOf, tildeTriggered, tildeAt, tildeAfterColon, globTriggered, bracketTriggered,
-          removeQuotes, WUnit.chars]
+          hasLitClose, removeQuotes, WUnit.chars]
   · -- bare
     have hn' : strNeedsQuoting s = false := by simpa using hn
     simp only [hn', Bool.not_false, if_true]
@@ -108,7 +108,7 @@ theorem quote_bare_is_identity (s : List Char) (h : strNeedsQuoting s = false) :
 local macro "eval_readback" : tactic =>
   `(tactic| simp [readBack, lex, fieldOf, isOperatorChar, isBlank, isWhitespace, operatorChars, blankExcluded,
       whitespaceRanges, tildeTriggered, tildeAt, tildeAfterColon, tildeName, globTriggered, bracketTriggered,
-      removeQuotes, WUnit.chars, dollarStarts, skipLC, specialParamChars, isNameChar, dqEscapable])
+      hasLitClose, removeQuotes, WUnit.chars, dollarStarts, skipLC, specialParamChars, isNameChar, dqEscapable])
 
 /-! Non-vacuity: the three cases are all inhabited, and unquoted text really is mangled by the lexer. -/
 example : quote "a:b{".toList = "a:b{".toList := by decide
